@@ -1,5 +1,5 @@
 """Which rules decide which property, with coverage floors counted on the pinned tree."""
-from . import rules_tables, rules_struct, rules_server, rules_traverse, rules_frames, rules_features
+from . import rules_tables, rules_struct, rules_server, rules_traverse, rules_frames, rules_features, rules_units
 
 _RULES = {
     "TABLES": rules_tables.rule_tables,
@@ -33,6 +33,10 @@ _RULES = {
     "FMT-PURE": rules_features.rule_fmt_pure,
     "COMMENT-PAIRING": rules_features.rule_comment_pairing,
     "SAME-FINDER": rules_features.rule_same_finder,
+    "POS-CONV": rules_units.rule_pos_conv,
+    "TOKEN-RANGE-SOURCE": rules_units.rule_token_range_source,
+    "KEYWORD-BOUNDARY": rules_units.rule_keyword_boundary,
+    "SEND-AWAIT": rules_units.rule_send_await,
 }
 
 _cache = {}
